@@ -26,6 +26,8 @@ def scen(sid, api, variant, k, kind="error", persist=False):
 def run(c):
     c.build_worker()
     c.tlc("MC_DepFaults", "depfaults.cfg", name="design-check")
+    c.tlc("MC_DepFaults", "live.cfg", files={"live.cfg": "CONSTANT Ops <- MCOps\nSPECIFICATION FairSpec\nPROPERTY Terminates\nCHECK_DEADLOCK FALSE\n"}, name="liveness")
+    c.cov["liveness"] = ["DepFaults!FairSpec |= Terminates (every operation returns, whatever fails)"]
     env = dict(os.environ, VERIF_REPO=vf.REPO, VERIF_FIXTURES=os.path.join(vf.VERIF, "fixtures"))
     ops = OPS if not c.quick else [(a, v[:3] if a in ("hashimage", "signimage") else v[:2]) for a, v in OPS]
     base = [scen("%s/%s/0" % (a, v), a, v, 0) for a, vs in ops for v in vs]
